@@ -235,11 +235,16 @@ def evaluate(fp, d, model, ordered, ok, part):
     return viol, pr
 
 
-def do_op(fp, pd, d, opr, rec, part):
-    """Execute one abstract operation on the real directory through the public API."""
+def do_op(fp, pd, d, opr, rec, part, fs=None):
+    """Execute one abstract operation on the real directory through the public API.
+    fs: the recording filesystem of the whole history (so that consecutive calls hand the library the SAME opener, as a
+    program using the default opener does); its recorder is switched to `rec` for this operation."""
     steps = opr["steps"]
     kind = opr["kind"]
-    fs = make_fs(rec)
+    if fs is None:
+        fs = make_fs(rec)
+    else:
+        fs.rec = rec
     kw = dict(open_with=fs.open, mkdirs=rec.mkdirs)
     if kind == "write":
         cm, nch = chunk_map(opr, part)
@@ -401,6 +406,7 @@ def replay_history(args):
             part = "cat"          # every other partitioned history passes the partition column as a categorical
         i = 0
         step = 0
+        hist_fs = make_fs(Recorder(root=d))
         prev_model, prev_ordered = [], True
         pr = {"refs": None, "files": {}}
         maxg = 0
@@ -417,7 +423,7 @@ def replay_history(args):
             maxg = max([maxg] + newg)
             raised = None
             try:
-                do_op(fp, pd, d, opr, rec, part)
+                do_op(fp, pd, d, opr, rec, part, fs=hist_fs)
             except BaseException as e:  # noqa
                 raised = e
             out["evals"] += 1
